@@ -12,12 +12,15 @@ PROPS = {'C06': {'C06'}, 'C07': {'C07'}, 'C08': {'C08'}, 'C09': {'C09'},
 PLANS = {
     'C06': {'quick': [('frag', 9000), ('corrupt', 3000), ('random', 1000),
                       ('long', 300), ('threads', 400),
-                      ('long_threads', 150)],
+                      ('long_threads', 150), ('huge_threads', 16)],
             'thorough': [('frag', 220000), ('corrupt', 60000),
                          ('random', 20000), ('long', 8000),
-                         ('threads', 12000), ('long_threads', 4000)]},
-    'C07': {'quick': [('frag', 8000), ('sweep', 1200), ('threads', 400)],
-            'thorough': [('frag', 200000), ('sweep', 20000), ('threads', 12000)]},
+                         ('threads', 12000), ('long_threads', 4000),
+                         ('huge_threads', 1500)]},
+    'C07': {'quick': [('frag', 8000), ('sweep', 1200), ('threads', 400),
+                      ('huge_threads', 16)],
+            'thorough': [('frag', 200000), ('sweep', 20000),
+                         ('threads', 12000), ('huge_threads', 1500)]},
     'C08': {'quick': [('corrupt', 10000), ('random', 1500), ('frag', 800),
                       ('long', 300), ('truncsweep', 400), ('bytesweep', 150),
                       ('fieldsweep', 120)],
@@ -28,11 +31,12 @@ PLANS = {
     'C09': {'quick': [('corrupt', 12000), ('random', 2000), ('long', 500),
                       ('truncsweep', 400), ('bytesweep', 150),
                       ('fieldsweep', 120), ('threads', 600),
-                      ('long_threads', 400)],
+                      ('long_threads', 400), ('huge_threads', 16)],
             'thorough': [('corrupt', 300000), ('random', 40000),
                          ('long', 12000), ('truncsweep', 12000),
                          ('bytesweep', 3000), ('fieldsweep', 3000),
-                         ('threads', 15000), ('long_threads', 6000)]},
+                         ('threads', 15000), ('long_threads', 6000),
+                         ('huge_threads', 1500)]},
     'C20': {'quick': [('frag', 7000), ('corrupt', 3000), ('random', 2500), ('threads', 400)],
             'thorough': [('frag', 180000), ('corrupt', 60000),
                          ('random', 60000), ('threads', 12000)]},
